@@ -1,8 +1,14 @@
 """C13 -- hand-optimised compressed-object decoder agrees with the declarative template (DESIGN §4 C13).
 
-Bounded-exhaustive differential exploration, no sampling.  Every payload is produced by the template's own
-``serialize`` from a generated dict (the property's "template's domain") or is a one-byte substitution /
-truncation / one-byte extension of such a payload.
+Bounded-exhaustive differential exploration, no sampling.  Every payload is the wire encoding of a generated dict (the
+property's "template's domain") or is a one-byte substitution / truncation / one-byte extension of such a payload.
+
+The generator does NOT go through the template under test: header, prim parameters and the simple sections are packed with
+``struct`` from a layout table written down from the protocol (REF_HEADER / REF_PRIM_LAYOUT / REF_FLAGS); only TextureEntry,
+ExtraParams and the particle blocks are encoded by the module-level sub-templates that both decoders share.  The template's
+own ``serialize`` of the same dict must give the same bytes (template-encode), so "payloads the template emits" and "payloads
+the generator emits" are the same set on a conforming tree, and a template whose member types drift (U8 -> S8) is judged on
+the wire values it can no longer express instead of silently narrowing the generated domain.
 
 Enumerated space
   A  all 2^11 section-flag combinations x every ``PCode`` enum member, baseline contents (every section filled with
@@ -41,6 +47,9 @@ A substituted / truncated payload is *well-formed* iff the template decodes it (
 to itself; everything else is counted (rejected / non-canonical) and not judged.
 
 Clauses (for every well-formed payload p; t = template.deserialize(p))
+  template-encode-raises  generated dicts: template.serialize(d) does not raise (site = the member being written); also: a shared
+                    sub-template refuses a generated section value
+  template-encode   generated dicts: template.serialize(d) == the reference wire encoding of d
   template-decode   generated payloads only: the template decodes what it has just encoded
   reencode          generated payloads only: template.serialize(t) == p  (for mutated payloads this is the definition
                     of well-formed, so it cannot fail there)
@@ -579,6 +588,10 @@ class _Empty:
 EMPTY = _Empty()
 
 
+NORMALIZE_READS = frozenset(("PCode", "Flags", "ID", "PSBlock", "PSBlockNew", "ParentID", "NameValue", "Text", "TextColor", "MediaURL",
+                             "AngularVelocity", "SoundFlags", "TextureEntry", "OwnerID"))
+
+
 def ref_normalize(t: Dict[str, Any]) -> Dict[str, Any]:
     """The normal form the comments in normalize_object_update_compressed_data describe, from the *template's* result."""
     new, old = force(t["PSBlockNew"]), force(t["PSBlock"])
@@ -662,6 +675,17 @@ def judge(part: Part, p: bytes, origin: str, site_hint: str, witness: dict, tops
         part.count("mutated_noncanonical")
         return "noncanonical"
     part.count("wellformed")
+    lacking = sorted(NORMALIZE_READS - set(t))
+    if lacking:  # a template that drops / renames a member: the reference normal form cannot be stated, the key sets are compared
+        part.violation("field-keys", "template:keys", witness, f"template result lacks the members {lacking}")
+        try:
+            f = FAST.read(p)
+            if set(f) != set(t):
+                part.violation("field-keys", "fast.read:keys", witness,
+                               f"template-only {sorted(set(t) - set(f))} fast-only {sorted(set(f) - set(t))}")
+        except Exception as e:
+            part.violation("fast-raises", f"fast.read@{site_hint}", witness, f"fast reader raised {e!r}")
+        return "violation"
     if int(t["PCode"]) not in PCODE_VALUES:
         part.count("pcode_outside_enum")
         try:
@@ -935,12 +959,22 @@ def check_cache_path(run_or_part, reps) -> None:
             meta.append((name, local_id, crc, p))
         with open(path, "wb") as fh:
             fh.write(buf)
-        cache = RegionViewerObjectCache.from_file(path)
+        try:
+            cache = RegionViewerObjectCache.from_file(path)
+        except Exception as e:
+            run_or_part.count("evaluations")
+            run_or_part.violation("cache-bytes", "RegionViewerObjectCache.from_file", {"kind": "cache", "rep": meta[0][0] if meta else ""},
+                                  f"reading a well-formed .slc file with {len(meta)} entries raised {e!r}")
+            return
     for name, local_id, crc, p in meta:
         run_or_part.count("evaluations")
         run_or_part.count("D_cache_entries")
-        got = cache.lookup_object_data(local_id, crc)
         w = {"kind": "cache", "rep": name}
+        try:
+            got = cache.lookup_object_data(local_id, crc)
+        except Exception as e:
+            run_or_part.violation("cache-bytes", "RegionViewerObjectCache.lookup_object_data", w, f"raised {e!r}")
+            continue
         if got is None or bytes(got) != p:
             run_or_part.violation("cache-bytes", "RegionViewerObjectCache.lookup_object_data", w,
                                   f"entry ({local_id}, {crc:#x}): cache returned {None if got is None else bytes(got)[:24].hex()}..., "
@@ -1116,7 +1150,15 @@ def run_history(part: Part, label: str, p: bytes, source: str) -> None:
             buf += struct.pack("<IIiiii", struct.unpack_from("<I", q, 16)[0], struct.unpack_from("<I", q, 22)[0], 1, 0, 0, len(q)) + q
         with open(path, "wb") as fh:
             fh.write(buf)
-        cache = RegionViewerObjectCache.from_file(path)
+        try:
+            cache = RegionViewerObjectCache.from_file(path)
+        except Exception as e:
+            cache = None
+            part.violation("cache-bytes", "RegionViewerObjectCache.from_file", {"kind": "history", "label": label, "hex": p.hex(), "source": source},
+                           f"reading a well-formed .slc file with {len(targets)} entries raised {e!r}")
+    decoders = ["fast", "template"]
+    if not (NORMALIZE_READS - set(refs["same"])):  # otherwise reported as field-keys@template:keys by the main families
+        decoders += ["normalize"] + (["cache-normalize"] if cache is not None else [])
     # step 1 + 2: decode, then edit the result in place
     try:
         r1 = _decode_with(source, p)
@@ -1135,7 +1177,7 @@ def run_history(part: Part, label: str, p: bytes, source: str) -> None:
     scramble(r1)
     part.count("E_histories")
     # step 3: every decoder, every payload sharing bytes with p
-    for dec in ("fast", "template", "normalize", "cache-normalize"):
+    for dec in decoders:
         for tname, q in targets:
             part.count("evaluations")
             part.count("E_decodes_after_edit")
@@ -1478,7 +1520,10 @@ def run(run: Run):
         "encode histories: failures are single-member out-of-domain edits of a decoded value (and 4 fixed bad values for other "
         "subfield serializers) that a private probe confirms to raise after partial output; up to 3 consecutive failures before a check; "
         "one process per payload, the witness is the executed op prefix",
-        "trusted: struct, lazy_object_proxy, copy.deepcopy, the harness's comparison function",
+        "the wire layout of the fixed part (header, prim parameters, section bits, simple sections) is the harness's own table, taken "
+        "from the protocol; TextureEntry / ExtraParams / particle sections are encoded by the sub-templates both decoders share "
+        "(a defect common to both decoders inside those sub-templates is visible only through the reencode clause)",
+        "trusted: struct, lazy_object_proxy, copy.deepcopy, the harness's comparison function and wire layout table",
     ]
 
 
